@@ -45,7 +45,7 @@ func main() {
 		Level:    "exploration",
 		Rule: "case = (composite kind, replicator stack of 0-2 decorators out of {deduplicating, concurrency-limiting(1-3), queued(cache size 1-4, duration)} over local|noop, key format, stream-/slice-backed backends, placement of 1-7 objects, fault plan) x " +
 			"(a sequential history of 6-30 operations | 2-18 concurrent callers over overlapping digest sets under a gate-by-gate schedule with cancellations, clock advances, evictions | the same free-running); " +
-			"distinct = hash of configuration + operations + executed schedule (released gates in order); non-trivial = every case has at least one object that only the slow/secondary backend holds or two callers sharing a digest",
+			"distinct = hash of configuration + operations + executed schedule (released gates in order); non-trivial (only those are counted as distinct) = sequential: a read fell through to the slow/secondary backend, a call failed or a FindMissing mixed placements; concurrent: two callers ask for a common object; existence cache: at least one answer came from the cache",
 		Workers:     8,
 		CaseTimeout: 90 * time.Second,
 		Race:        true,
